@@ -228,6 +228,24 @@ def stateful_chain(seed=0):
   return g.bytes(), info
 
 
+INT32_TRANSPOSE = {"ops": [{"kind": "SAMEIN1", "ins": [0, 1], "outs": [2]}], "trole": ["act", "aux", "act"], "gins": [0], "gouts": [2]}
+
+
+def int32_transpose(seed=0):
+  """INT32_TRANSPOSE as a model: an int32 runtime tensor through TRANSPOSE (statistics are recorded for integer tensors of selected
+  operators as well). Returns (bytes, info) like `build`."""
+  g = G(b"int32-transpose")
+  sg = g.subgraph()
+  g.tensor(sg, tname(0, 0), [1, 2, 3], ttype=TT.INT32, buffer=0)
+  g.tensor(sg, tname(0, 1), [3], np.array([0, 2, 1], np.int32), TT.INT32)
+  g.tensor(sg, tname(0, 2), [1, 3, 2], ttype=TT.INT32, buffer=0)
+  g.op(sg, B.TRANSPOSE, [0, 1], [2], S.TransposeOptionsT(), BO.TransposeOptions)
+  sg.inputs, sg.outputs = [0], [2]
+  g.signature("serving_default", 0, [("x0", 0)], [("o0", 2)])
+  info = {"names": [[tname(0, t) for t in range(3)]], "shapes": [[[1, 2, 3], [3], [1, 3, 2]]], "codes": [["TRANSPOSE"]], "nt0": [3], "nops0": [1]}
+  return g.bytes(), info
+
+
 def scn_key(scn):
   return hashlib.sha256(json.dumps(scn, sort_keys=True).encode()).hexdigest()[:16]
 
